@@ -13,7 +13,12 @@ META = {
             "enabled; a timed sleeper is released by the clock.  Tie: the real class under the deterministic scheduler "
             "(pre-emption at every atomic op and futex call, virtual time); DSCHED-STUCK on a balanced program = deadlock / "
             "lost wakeup; small programs are compared with the exhaustively explored model (which also says when blocking "
-            "for good is legitimate); the timed exclusive pop is checked against the virtual clock.",
+            "for good is legitimate); the timed exclusive pop is checked against the virtual clock.  Timed pop: after its one "
+            "timed wait the call is try_pop_n<false> and never waits again (c02_timed_pop_tail_never_waits; the tail of the "
+            "function is regenerated: the statement after the wait must be `return try_pop_n<false,...>(callback, num);` and "
+            "the last of the body); executed with a slow producer callback holding an unpublished index while later indices "
+            "are published (H ops): the call must return by its deadline with the ready prefix (stuck / mon-timed / "
+            "mon-prefix otherwise).",
     "note": "All statements are theorems, incl. c02_no_deadlock (balanced programs of blocking calls with one-sided threads "
             "always have an enabled thread while a thread is unfinished; proved from the ticket accounting: every issued "
             "ticket is published or held, counters = elements of the calls that obtained tickets).  The step from 'no "
